@@ -25,6 +25,7 @@ func init() {
 				CutCallees: lazyCutCallees})
 			c.ruleDecodeSiblings("R-DECODE-SIBLINGS")
 			c.ruleDepthPair("R-DEPTH-PAIR", "internal/impl.(*MessageInfo).validate")
+			c.ruleConsumeTagRange("R-CONSUMETAG-RANGE", []string{"internal/impl", "proto", "internal/encoding/messageset"}, 4)
 			c.ruleNegLen("R-NEG-LEN", binaryDecoderPkgs, map[string]string{
 				"internal/encoding/messageset.ConsumeFieldValue nn": "re-parses the length prefix of `message`, which is b[:n:n] of a ConsumeBytes call that already succeeded in this function",
 				"internal/impl.equalUnknown n":                      "parses unknown-field bytes already stored in a message: they were validated by the decoder when stored (SetUnknown callers own validity); not decoder input",
